@@ -378,9 +378,14 @@ class TraceSet(object):
                 self.xjumpval = np.float64(kwargs['xjumpval'])
             else:
                 self.xjumpval = None
-            self.coeff = np.zeros((self.nTrace, self.ncoeff), dtype=xpos.dtype)
+            #
+            # Coefficients and fitted values are real numbers even when
+            # the positions are integers (pixel indices).
+            #
+            ftype = np.result_type(xpos.dtype, ypos.dtype, np.float32)
+            self.coeff = np.zeros((self.nTrace, self.ncoeff), dtype=ftype)
             self.outmask = np.zeros(xpos.shape, dtype=bool)
-            self.yfit = np.zeros(xpos.shape, dtype=xpos.dtype)
+            self.yfit = np.zeros(xpos.shape, dtype=ftype)
             for iTrace in range(self.nTrace):
                 xvec = self.xnorm(xpos[iTrace, :], do_jump)
                 iIter = 0
